@@ -17,7 +17,8 @@ func c18NulPrinter(w *mon.Worker, idx int) mon.Result {
 	res := mon.Result{Tags: []string{"family:nul-printer"}, Nontrivial: true}
 	outName := []string{"yaml", "props", "csv", "tsv", "json"}[r.IntN(5)]
 	good := []string{`"plain"`, `"two words"`, `1`, `[1, 2]`, `{"a": "b"}`, `"x", "y"`, `"é"`, `""`, `[["p", "q"]]`}
-	bad := []string{`"nul\u0000inside"`, `"\u0000"`, `"a", "b\u0000c"`, `{"k": {"deep": 1}} | .k.deep.x`, `error("stop")`}
+	// (a NUL character comes out of the base64 decoder: "AA==" is the byte 0)
+	bad := []string{`"nul" + ("AA==" | @base64d) + "inside"`, `"AA==" | @base64d`, `"a", ("YgBj" | @base64d)`, `{"k": {"deep": 1}} | .k.deep.x`, `error("stop")`, `"first", ("AA==" | @base64d), "third"`}
 	n := 5 + r.IntN(5)
 	var steps []string
 	for i := 0; i < n; i++ {
